@@ -140,6 +140,29 @@ def run_special(acc, api):
             if a != b:
                 acc.violation('text-depends-on-earlier-calls', f'{v!r}: {a!r} in this process, {b!r} in a fresh process (reversed order)', {'x': refval.enc(v)})
                 break
+    # numeric literals in SOURCE text denote doubles: also digit strings that are not exactly representable (above 2**53), and
+    # arithmetic on them; their text parses back to the same number
+    lits = ['9007199254740993', '18014398509481985', '9007199254740992', '123456789012345678901234567890', '99999999999999999999999', '4503599627370497',
+            '1' + '0' * 22, '1' + '0' * 23, '12345678901234567', '0', '7', '0.1', '1e+22', '1.5e+300', '2.5', '100', '3']
+    rl = random.Random(7)
+    lits += [''.join(rl.choice('0123456789') for _ in range(rl.randint(15, 30))).lstrip('0') or '1' for _ in range(60)]
+    for L in lits:
+        acc.case('literal:' + L, True)
+        text = f"xx = {L}\nreturn arrayNew(xx, xx + 1, xx * 3, 0 - xx, '' + xx, numberParseFloat('' + xx), xx == numberParseFloat('' + xx))"
+        try:
+            res = bare_script.execute_script(bare_script.parse_script(text), {'globals': {}})
+        except Exception as exc:  # pylint: disable=broad-except
+            acc.violation('literal-script-raised', f'{L}: {type(exc).__name__}: {exc}', {'literal': L})
+            continue
+        acc.count('source_literal_checks')
+        want = float(L)
+        nums = res[:4] + [res[5]]
+        bad = [r for r in nums if not isinstance(r, (int, float)) or isinstance(r, bool) or (isinstance(r, int) and int(float(r)) != r)]
+        if bad:
+            acc.violation('number-is-not-a-double', f'literal {L}: script values {bad!r:.200} are not IEEE doubles (results {res!r:.300})', {'literal': L})
+        elif res[0] != want or res[1] != want + 1 or res[2] != want * 3 or res[5] != want or res[6] is not True:
+            acc.violation('literal-round-trip', f'literal {L} (double {want!r}): script gives {res!r:.300}', {'literal': L})
+    acc.cover('special_classes', 'source-literals-beyond-2^53')
     acc.cover('special_classes', 'powers-of-ten')
     acc.cover('special_classes', 'around-2^53-1e15-1e16-1e21')
     acc.cover('special_classes', 'subnormals-and-zeros')
